@@ -4,6 +4,7 @@
 package main
 
 import (
+	"bufio"
 	"bytes"
 	"fmt"
 	"os"
@@ -524,107 +525,108 @@ func observe(in input) []Sx {
 	return obs
 }
 
-// bdSafe tells whether BurndownAnalysis.MergeResults can be run in this process: its worker goroutines
-// must not panic (a panic in a goroutine cannot be recovered by the caller and kills the process).
-func bdSafe(in input) bool {
-	b1, b2 := in.bd[0], in.bd[1]
-	if b1.TickSize != b2.TickSize {
-		return true // error return before anything is started
-	}
-	if in.c1.End == 0 || in.c2.Begin == 0 || in.c1.Begin <= 0 || in.c2.End <= 0 ||
-		in.c1.End <= in.c1.Begin || in.c2.End <= in.c2.Begin {
-		return false
-	}
-	for _, m := range append(append([][][]int64{b1.Global, b2.Global}, b1.PH...), b2.PH...) {
-		if !(len(m) == 0 || (len(m) == 1 && len(m[0]) == 1)) {
-			return false
-		}
-	}
-	anyHist := len(b1.Global) > 0 || len(b2.Global) > 0 || len(b1.PH) > 0 || len(b2.PH) > 0
-	if anyHist && (b1.Sampling != 1 || b2.Sampling != 1 || b1.Granularity != 1 || b2.Granularity != 1) {
-		return false
-	}
-	if anyHist && (b1.TickSize <= 0 || b1.TickSize%int64(time.Second) != 0) {
-		return false
-	}
-	tab, merged := leaves.VerifC18MergeIdentities(b1.People, b2.People)
-	look := map[string]leaves.VerifC18MergedIndex{}
-	for _, e := range tab {
-		look[e.Key] = e
-	}
-	if len(merged) == 0 {
-		return true
-	}
-	if len(b1.PH) > 0 || len(b2.PH) > 0 {
-		for _, key := range merged {
-			p := look[key]
-			if p.First >= len(b1.PH) || p.Second >= len(b2.PH) {
-				return false
-			}
-		}
-	}
-	if len(b2.PM) > 0 {
-		check := func(rd []string, pm [][]int64) bool {
-			for i, key := range rd {
-				if look[key].Final >= len(merged) || i >= len(pm) || len(pm[i]) < 2 || len(pm[i])-2 > len(rd) {
-					return false
-				}
-			}
-			return true
-		}
-		if !check(b1.People, b1.PM) || !check(b2.People, b2.PM) {
-			return false
-		}
-	}
-	return true
-}
-
 var isChild bool
 
-// isolated runs one case in a child process; a crash of the child is a panic of the implementation.
-func isolated(in input) []Sx {
-	tmp, err := os.CreateTemp("", "c18-iso-*.txt")
-	if err != nil {
-		panic(err)
+// Burndown cases are evaluated in a child process: BurndownAnalysis.MergeResults does its work in goroutines,
+// and a panic in a goroutine cannot be recovered by the caller - it kills the process.  The child handles a
+// batch of cases and prints one result line per case; when it dies, the case it was working on is recorded as
+// a panic of the implementation and a new child continues with the rest.
+func childMain(cases []Sx) {
+	out := bufio.NewWriter(os.Stdout)
+	for i, cs := range cases {
+		obs := observe(parseInput(cs))
+		fmt.Fprintf(out, "RES %d %s\n", i, T("obs", obs...).String())
+		out.Flush()
 	}
-	defer os.Remove(tmp.Name())
-	out := tmp.Name() + ".out"
-	defer os.Remove(out)
-	l := append([]Sx{A("case"), I(0)}, in.fields()...)
-	tmp.WriteString(Sx{List: l, IsL: true}.String() + "\n")
-	tmp.Close()
-	cmd := exec.Command(os.Args[0], "-child", "-replay", tmp.Name(), "-out", out)
-	var stderr bytes.Buffer
-	cmd.Stderr = &stderr
-	err = cmd.Run()
-	if err != nil {
-		msg := stderr.String()
-		if strings.Contains(msg, "panic:") || strings.Contains(msg, "fatal error:") {
-			rd1, rd2 := in.people()
-			return []Sx{idTable(rd1, rd2), T("out", T("panic"))}
-		}
-		fmt.Fprintln(os.Stderr, "child failed:", err, msg)
-		os.Exit(2)
-	}
-	data, err := os.ReadFile(out)
-	if err != nil {
-		panic(err)
-	}
-	sx, err := ParseSx(strings.TrimSpace(string(data)))
-	if err != nil {
-		panic(err)
-	}
-	return must(sx, "obs").Args()
 }
 
-var nIsolated int
-
-func run(in input) []Sx {
-	if in.an == "burndown" && !isChild && !bdSafe(in) {
-		nIsolated++
-		return isolated(in)
+func runBatch(ins []input) [][]Sx {
+	res := make([][]Sx, len(ins))
+	start := 0
+	for start < len(ins) {
+		tmp, err := os.CreateTemp("", "c18-batch-*.txt")
+		if err != nil {
+			panic(err)
+		}
+		w := bufio.NewWriter(tmp)
+		for k := start; k < len(ins); k++ {
+			l := append([]Sx{A("case"), I(k - start)}, ins[k].fields()...)
+			w.WriteString(Sx{List: l, IsL: true}.String())
+			w.WriteByte('\n')
+		}
+		w.Flush()
+		tmp.Close()
+		cmd := exec.Command(os.Args[0], "-child", "-replay", tmp.Name(), "-out", os.DevNull)
+		var stderr, stdout bytes.Buffer
+		cmd.Stderr = &stderr
+		cmd.Stdout = &stdout
+		runErr := cmd.Run()
+		os.Remove(tmp.Name())
+		done := 0
+		for _, line := range strings.Split(stdout.String(), "\n") {
+			if !strings.HasPrefix(line, "RES ") {
+				continue
+			}
+			parts := strings.SplitN(line, " ", 3)
+			sx, err := ParseSx(parts[2])
+			if err != nil || len(parts) < 3 {
+				break // a line cut short by the crash
+			}
+			res[start+done] = sx.Args()
+			done++
+		}
+		if runErr == nil {
+			if start+done != len(ins) {
+				fmt.Fprintln(os.Stderr, "child returned too few results")
+				os.Exit(2)
+			}
+			break
+		}
+		msg := stderr.String()
+		if !(strings.Contains(msg, "panic:") || strings.Contains(msg, "fatal error:")) || start+done >= len(ins) {
+			fmt.Fprintln(os.Stderr, "child failed:", runErr, msg)
+			os.Exit(2)
+		}
+		rd1, rd2 := ins[start+done].people()
+		res[start+done] = []Sx{idTable(rd1, rd2), T("out", T("panic"))}
+		start += done + 1
 	}
-	return observe(in)
+	return res
+}
+
+type pendingCase struct {
+	kind string
+	in   input
+}
+
+var pending []pendingCase
+
+func flushPending(c *Config) {
+	var batch []input
+	for _, p := range pending {
+		if p.in.an == "burndown" {
+			batch = append(batch, p.in)
+		}
+	}
+	var batchRes [][]Sx
+	if len(batch) > 0 {
+		batchRes = runBatch(batch)
+	}
+	bi := 0
+	for _, p := range pending {
+		var obs []Sx
+		if p.in.an == "burndown" {
+			obs = batchRes[bi]
+			bi++
+		} else {
+			obs = observe(p.in)
+		}
+		fs := []Sx{T("kind", A(p.kind)), T("nt", B(nonTrivial(p.in)))}
+		fs = append(fs, p.in.fields()...)
+		fs = append(fs, T("obs", obs...))
+		c.Emit(fs...)
+	}
+	pending = pending[:0]
 }
 
 func nonTrivial(in input) bool {
@@ -643,11 +645,10 @@ func nonTrivial(in input) bool {
 }
 
 func emit(c *Config, kind string, in input) {
-	obs := run(in)
-	fs := []Sx{T("kind", A(kind)), T("nt", B(nonTrivial(in)))}
-	fs = append(fs, in.fields()...)
-	fs = append(fs, T("obs", obs...))
-	c.Emit(fs...)
+	pending = append(pending, pendingCase{kind, in})
+	if len(pending) >= 4000 {
+		flushPending(c)
+	}
 }
 
 func main() {
@@ -663,6 +664,10 @@ func main() {
 	os.Args = args
 	c := Setup()
 	defer c.Close()
+	if isChild {
+		childMain(c.ReplayCases())
+		return
+	}
 	if c.Replay != "" {
 		for _, cs := range c.ReplayCases() {
 			kind := "replay"
@@ -671,10 +676,9 @@ func main() {
 			}
 			emit(c, kind, parseInput(cs))
 		}
+		flushPending(c)
 		return
 	}
 	generate(c)
-	if os.Getenv("C18_DEBUG") != "" {
-		fmt.Fprintln(os.Stderr, "isolated cases:", nIsolated)
-	}
+	flushPending(c)
 }
